@@ -56,7 +56,7 @@ var c18URIs = map[string]string{
 func genC18(t *rapid.T) c18Case {
 	var c c18Case
 	c.Linear = rapid.Bool().Draw(t, "linear")
-	c.Prefix = rapid.SampledFrom([]string{"/api", "/api", "", "/v1.2", "/0.9"}).Draw(t, "prefix")
+	c.Prefix = rapid.SampledFrom([]string{"/api", "/api", "", "/v1.2", "/0.9", "/v0.0.9", "/0.0.9/api", "/v2/api", "/1"}).Draw(t, "prefix")
 	n := rapid.IntRange(1, 6).Draw(t, "nreqs")
 	str := func(l string) string { return rapid.SampledFrom(c18Strings).Draw(t, l) }
 	id := func(l string) string { return rapid.SampledFrom(c18Ids).Draw(t, l) }
